@@ -50,7 +50,15 @@ def snapshot(env: simenv.SimEnv, root: str) -> Dict[str, str]:
             p = os.path.join(dirpath, fn)
             try:
                 with env.real_open(p, "rb") as fh:
-                    snap[os.path.relpath(p, root)] = hashlib.sha256(fh.read()).hexdigest()[:16]
+                    raw = fh.read()
+                if raw[:2] == b"\x1f\x8b":
+                    # a gzip header carries the wall-clock second of writing: two writes of the same content are
+                    # "the same file" whether or not a second boundary lies between them
+                    try:
+                        raw = b"gz:" + gzip.decompress(raw)
+                    except Exception:  # noqa: BLE001
+                        raw = raw[:4] + b"\0\0\0\0" + raw[8:]
+                snap[os.path.relpath(p, root)] = hashlib.sha256(raw).hexdigest()[:16]
             except OSError:
                 snap[os.path.relpath(p, root)] = "unreadable"
     return snap
